@@ -676,6 +676,103 @@ pub fn run_state_case(spec: &Spec, out: &mut dyn Write) -> GeomOut {
             }
         }
     }
+    // ---------------- C03: the LJ score is minus the lattice energy per molecule
+    if let St::Lj(_) = &st {
+        if finite_cell && finite_site && a > 1e-3 && b > 1e-3 && sn > 1e-3 {
+            let (ax, bx, by) = (a, b * cs, b * sn);
+            let cut = match &items {
+                Items::Ljs(v) => v.iter().map(|i| i.4).fold(Some(0.), |acc: Option<f64>, c| match (acc, c) {
+                    (Some(x), Some(y)) => Some(x.max(y)),
+                    _ => None,
+                }),
+                _ => None,
+            };
+            let height = sn * a.min(b);
+            // shells: the code's 3 for an uncut potential (the property allows the truncation error);
+            // for a cut potential as many as the cutoff can reach
+            let shells: i64 = match cut {
+                Some(c) => (((c + 2. * radius) / height).ceil() as i64 + 1).max(3).min(40),
+                None => 3,
+            };
+            // reference: every unordered pair of distinct molecule images once.  In-cell pairs (i<j) once,
+            // pairs with an image half from either side; for an uncut potential the next ring of images
+            // measures the truncation error the property allows
+            let mut incell = 0.;
+            let mut images = 0.;
+            let mut beyond3 = 0.;
+            let mut ring4 = 0.;
+            let like = match &items {
+                Items::Ljs(v) => v.iter().all(|i| i.2 == v[0].2 && i.3 == v[0].3 && i.4 == v[0].4),
+                _ => true,
+            };
+            // uncut: rings 4..16 estimate the truncation error of the 3-shell sum
+            let sh = if cut.is_none() { 16 } else { shells };
+            for (i, p) in cart.iter().enumerate() {
+                for (j, q) in cart.iter().enumerate() {
+                    if j > i {
+                        incell += st.impl_energy(p, q).unwrap_or(0.);
+                    }
+                    for nn in -sh..=sh {
+                        for mm in -sh..=sh {
+                            if nn == 0 && mm == 0 {
+                                continue;
+                            }
+                            let mut qq = *q;
+                            qq[2] += nn as f64 * ax + mm as f64 * bx;
+                            qq[5] += mm as f64 * by;
+                            let e = st.impl_energy(p, &qq).unwrap_or(0.);
+                            if nn.abs() > 3 || mm.abs() > 3 {
+                                if cut.is_none() {
+                                    ring4 += e.abs();
+                                } else {
+                                    images += e;
+                                    beyond3 += e.abs();
+                                }
+                            } else {
+                                images += e;
+                            }
+                        }
+                    }
+                }
+            }
+            let want = -(incell + 0.5 * images) / n as f64;
+            let trunc = ring4 / n as f64;
+            if let Some(sc) = score {
+                // (states with nearly coincident particles have astronomically large, ill-conditioned energies)
+                if sc.is_finite() && want.is_finite() && want.abs() < 1e6 {
+                    let tol = 1e-9 * (1. + want.abs());
+                    if (sc - want).abs() > tol {
+                        let class = if beyond3 > tol { " [class=beyond-three-shells]" } else { "" };
+                        add(&mut f, "C03", format!(
+                            "the score {:?} is not minus the lattice energy per molecule {:?} (in-cell pairs once, image pairs half from either side, {} shells){}",
+                            sc, want, shells, class));
+                    }
+                }
+            }
+            // two descriptions of one crystal: the origin shifted by a symmetry-equivalent half lattice vector.
+            // (Only for molecules of like particles: for unlike particles the pair energy itself depends on the
+            // order of the pair - known finding D9 - and with it on which copies lie inside the cell.)
+            if spec.kv.contains_key("len") && like && beyond3 == 0. {
+                for (hx, hy) in [(0.5, 0.), (0., 0.5), (0.5, 0.5)].iter() {
+                    let mut s2 = spec.clone();
+                    let wrapc = |v: f64| -> f64 { let w = v + 0.5; let w = w - w.floor(); w - 0.5 };
+                    s2.kv.insert("x".into(), fmt_f(wrapc(sx + hx)));
+                    s2.kv.insert("y".into(), fmt_f(wrapc(sy + hy)));
+                    if let Ok(st2) = catch_unwind(AssertUnwindSafe(|| build(&s2))) {
+                        if let (Some(s1), Some(s2v)) = (score, st2.score()) {
+                            // the allowed difference: rounding, plus (uncut potential) the truncation error
+                            let tol = 1e-9 * (1. + s1.abs()) + 3. * trunc;
+                            if s1.is_finite() && s2v.is_finite() && s1.abs() < 1e6 && (s1 - s2v).abs() > tol {
+                                add(&mut f, "C03", format!(
+                                    "the same crystal described with the origin shifted by ({},{}) scores {:?} instead of {:?} (allowed difference {:e})", hx, hy, s2v, s1, tol));
+                                break;
+                            }
+                        }
+                    }
+                }
+            }
+        }
+    }
     writeln!(out, "m {}", hex(min_sep_for_model)).unwrap();
     writeln!(out, "E").unwrap();
     let meta = format!(
@@ -791,9 +888,75 @@ pub fn run_pair_case(spec: &Spec, out: &mut dyn Write) -> GeomOut {
     GeomOut { findings: f, meta: format!("pair=true ab={:?} sep={:e} convex={}", ab, sep, convex) }
 }
 
+/// C13: two LJ particles.  spec: mode=lj2 s1= e1= c1=(-|x) s2= e2= c2= r= [th= common=phi:x:y:mirror]
+pub fn run_lj2_case(spec: &Spec, out: &mut dyn Write) -> GeomOut {
+    use packing::traits::Potential as _;
+    let mut f: Vec<Finding> = vec![];
+    let (s1, e1, c1) = (spec.f("s1"), spec.f("e1"), spec.fo("c1"));
+    let (s2, e2, c2) = (spec.f("s2"), spec.f("e2"), spec.fo("c2"));
+    let r = spec.f("r");
+    let th = spec.fo("th").unwrap_or(0.);
+    let mk = |x: f64, y: f64, sg: f64, ep: f64, c: Option<f64>| packing::LJ2 { position: nalgebra::Point2::new(x, y), sigma: sg, epsilon: ep, cutoff: c };
+    let (p1, p2) = ((0.3, -0.2), (0.3 + r * th.cos(), -0.2 + r * th.sin()));
+    let a = mk(p1.0, p1.1, s1, e1, c1);
+    let b = mk(p2.0, p2.1, s2, e2, c2);
+    let eab = a.energy(&b);
+    let eba = b.energy(&a);
+    // the law: 4 eps ((sigma/r)^12 - (sigma/r)^6), shifted to zero at the cutoff, zero beyond it
+    let rr = ((p1.0 - p2.0).powi(2) + (p1.1 - p2.1).powi(2)).sqrt();
+    let law = |sg: f64, ep: f64, c: Option<f64>| -> f64 {
+        let v = |d: f64| 4. * ep * ((sg / d).powf(12.) - (sg / d).powf(6.));
+        match c {
+            Some(c) if rr >= c => 0.,
+            Some(c) => v(rr) - v(c),
+            None => v(rr),
+        }
+    };
+    let want = law(s1, e1, c1);
+    let near_cut = c1.map(|c| (rr - c).abs() < 1e-9 * c).unwrap_or(false);
+    let tol = |w: f64| 1e-9 * (1. + w.abs());
+    if eab.is_finite() && want.is_finite() && !near_cut && (eab - want).abs() > tol(want) {
+        add(&mut f, "C13", format!("energy at distance {:?} (sigma {:?}, eps {:?}, cutoff {:?}) is {:?}, the shifted truncated 12-6 law gives {:?}", rr, s1, e1, c1, eab, want));
+    }
+    if let Some(c) = c1 {
+        if rr > c * (1. + 1e-12) && eab != 0. {
+            add(&mut f, "C13", format!("energy {:?} beyond the cutoff {:?} at distance {:?}", eab, c, rr));
+        }
+    }
+    let like = s1 == s2 && e1 == e2 && c1 == c2;
+    if eab.is_finite() && eba.is_finite() && (eab - eba).abs() > tol(eab) {
+        add(&mut f, "C13", format!(
+            "energy(a,b) = {:?} but energy(b,a) = {:?} at distance {:?}{}", eab, eba, rr,
+            if like { "" } else { " [class=unlike-parameters]" }));
+    }
+    if c1.is_none() && e1 >= 0. && eab.is_finite() && eab < -e1 * (1. + 1e-12) - 1e-300 {
+        add(&mut f, "C13", format!("energy {:?} below the minimum -eps = {:?}", eab, -e1));
+    }
+    // invariance under a common rigid motion / reflection
+    if let Some(c) = spec.kv.get("common") {
+        let v: Vec<f64> = c.split(':').map(parse_f).collect();
+        let (cs, sn) = (v[0].cos(), v[0].sin());
+        let m: M9 = if v[3] != 0. { [-cs, sn, v[1], sn, cs, v[2], 0., 0., 1.] } else { [cs, -sn, v[1], sn, cs, v[2], 0., 0., 1.] };
+        let t = tf_of(&m);
+        let (a2, b2) = (&a * &t, &b * &t);
+        let e2v = a2.energy(&b2);
+        if eab.is_finite() && e2v.is_finite() && !near_cut && (eab - e2v).abs() > 1e-9 * (1. + eab.abs()) * (1. + (s1 / rr).powi(12)).max(1.) * 1e-3 + tol(eab) {
+            add(&mut f, "C13", format!("energy changes from {:?} to {:?} under a common rigid motion", eab, e2v));
+        }
+        if a2.sigma != s1 || a2.epsilon != e1 || a2.cutoff != c1 {
+            add(&mut f, "C13", "a transformed particle does not keep sigma / epsilon / cutoff".into());
+        }
+    }
+    writeln!(out, "K {}", spec.text).unwrap();
+    writeln!(out, "Z {} {} {} {} {} {} {} {} {} {} {} {}", hex(p1.0), hex(p1.1), hex(s1), hex(e1), hexo(c1), hex(p2.0), hex(p2.1), hex(s2), hex(e2), hexo(c2), hex(eab), hex(eba)).unwrap();
+    writeln!(out, "E").unwrap();
+    GeomOut { findings: f, meta: format!("lj2=true like={} inside={}", like, c1.map(|c| rr < c).unwrap_or(true)) }
+}
+
 pub fn run_case(spec: &Spec, out: &mut dyn Write) -> GeomOut {
     match spec.get_or("mode", "state") {
         "pair" => run_pair_case(spec, out),
+        "lj2" => run_lj2_case(spec, out),
         _ => run_state_case(spec, out),
     }
 }
